@@ -45,6 +45,8 @@ def c07_case(draw):
             fault = draw(st.sampled_from(mutate.FAULTS + mutate.WARNINGS + mutate.WARNINGS))
             if fault.where == "utf8" or fault.where == "top-after-link":
                 fault = mutate.BY_KIND["division-by-zero"]
+            if fault.kind in planted and "§" not in fault.text:
+                continue        # the same name-less fault twice would define the same symbol twice
             uid[0] += 1
             pre, line, post = fault.render(100 + uid[0])
             line, _ = mutate.strip(line)
